@@ -317,6 +317,35 @@ c.requires('inv', 'dir_inv(self)')
 c.ensures('directory-unchanged', 'same_directory(self)')
 c.ensures('inv', 'dir_inv(self)')
 
+# ---- refresh = discover, then expire: the periodic refresh is where lights that stopped answering leave the directory
+c = contract(L, 'LightSet.refresh', serves=['C13'], name='LightSet.refresh[nothing answers any more, everybody is too old]')
+def _setup(b, case):
+    ls, lights = directory(b, case['n'], case['g'], case['l'])
+    lib.injection_reset(b)
+    ic = b.module('bardolph.controller.i_controller')
+    lib.provide(b, ic.ns['LightApi'], light_api_stub(b, []))
+    now = b.sym('real', 'now')
+    for l in lights:
+        bt = l.attrs['_birth']
+        if isinstance(bt, SymVal):
+            b.assume(bt.t < now.t - 1200)
+        else:
+            l.attrs['_birth'] = now - 1300
+    b.ghost('now', now)
+    b.module('time').ns['time'] = Builtin('time.time', lambda I_, a, k: now)
+    if not isinstance(now, SymVal):
+        b.pre_exec.append('import time; time.time = lambda: %r' % (now,))
+    settings = Opaque('settings', {'get_value': lambda I_, o, a, k: 1200})
+    settings.native = {'kind': 'data', 'returns': {'get_value': 1200}}
+    lib.provide(b, b.module('bardolph.lib.i_lib').ns['Settings'], settings)
+    return {'self': ls}
+c.setup(_setup)
+c.bounded('all directories of at most 2 lights')
+c.cases([k for k in CASES if k['n'] <= 2])
+c.requires('inv', 'dir_inv(self)')
+c.ensures('everybody-expired', 'len(self._lights) == 0 and len(self._light_names) == 0 and len(self._groups) == 0 and len(self._locations) == 0')
+c.ensures('inv', 'dir_inv(self)')
+
 # ---- expiry
 c = contract(L, 'LightSet._garbage_collect', serves=['C13'], unwrap=1)
 def _setup(b, case):
